@@ -923,7 +923,7 @@ def _getNamespaceToClassesFromFullyQualifiedNames(classObj, setOfClasses, is_fil
             # Only the leading namespace: a class without namespace has nothing to clean, and the text may occur elsewhere in the name.
             f = f[len(classObj.NAMESPACE) + 2:]
         full = f.split("::")
-        ns = f.replace(full[-1], "")
+        ns = f[:len(f) - len(full[-1])]  # everything before the class name (the class name may also occur inside a namespace name)
         if is_file_include:  # when using this for include files, switch :: with /
             ns = ns.replace("::", "/")
         else:  # when using this for forward declarations, the extra '::' creates an empty namespace.
